@@ -84,6 +84,16 @@ func checkC08(c *Ctx, r *Report) {
 		}
 		r.floor("R8.10", 1)
 	}
+	// R8.11: surplus bytes after a reply are not hidden from the parsers' own length checks: the
+	// reply dispatchers hand their whole input to the per-function parser (C02 R2.4 clause)
+	{
+		tmp := newReport(r.Prop, r.Tier)
+		for _, name := range []string{"ParseTCPResponse", "ParseRTUResponse"} {
+			c02Dispatcher(c, tmp, c.fnMust("packet", name), name == "ParseTCPResponse", false)
+		}
+		r.instance("R8.11", copyItems(tmp, r, "R2.4", "R8.11", "is handed the dispatcher's whole input"))
+		r.floor("R8.11", 10)
+	}
 	// R8.8: never panics: the installed reply functions cannot fail on any reply bytes
 	installedNoPanic(c, r, "R8.8")
 	r.floor("R8.8", 4)
